@@ -5,6 +5,7 @@ mod bigint;
 mod proto;
 mod q;
 mod run;
+mod z;
 
 use std::io::{BufRead, Write};
 
